@@ -7,6 +7,8 @@ import (
 	"fmt"
 	"os"
 	"path/filepath"
+	"runtime"
+	"strings"
 	"sync"
 	"time"
 
@@ -41,7 +43,7 @@ type Fataler interface {
 // QuiesceTimeout bounds waiting for the wallet; hitting it means the wallet
 // stopped consuming notifications (reported as inconclusive, never as a
 // property violation).
-const QuiesceTimeout = 60 * time.Second
+var QuiesceTimeout = 60 * time.Second
 
 // Fixture is one wallet on one database file plus the backend model.
 type Fixture struct {
@@ -154,7 +156,13 @@ func (f *Fixture) Connect() {
 // Quiesce waits until the wallet has processed all queued notifications.
 func (f *Fixture) Quiesce() {
 	if err := f.Client.Quiesce(QuiesceTimeout); err != nil {
-		f.Inconclusive("%v (after %v)", err, QuiesceTimeout)
+		buf := make([]byte, 1<<20)
+		n := runtime.Stack(buf, true)
+		txt := ""
+		if f.Text != nil {
+			txt = f.Text()
+		}
+		f.Inconclusive("%v (after %v)\n--- history ---\n%s\n--- goroutines ---\n%s", err, QuiesceTimeout, txt, filterStacks(string(buf[:n])))
 	}
 }
 
@@ -219,4 +227,18 @@ func (f *Fixture) Close() {
 	if f.Dir != "" {
 		os.RemoveAll(f.Dir)
 	}
+}
+
+// filterStacks keeps the goroutines that are inside btcwallet code.
+func filterStacks(all string) string {
+	var out []string
+	for _, g := range strings.Split(all, "\n\n") {
+		if strings.Contains(g, "btcsuite/btcwallet/wallet") || strings.Contains(g, "btcwallet/waddrmgr") {
+			if len(g) > 3000 {
+				g = g[:3000]
+			}
+			out = append(out, g)
+		}
+	}
+	return strings.Join(out, "\n\n")
 }
